@@ -8,6 +8,7 @@ import (
 	"context"
 	"errors"
 	"fmt"
+	"runtime"
 	"strings"
 	"sync"
 	"sync/atomic"
@@ -254,6 +255,22 @@ func (c *Ctx) Fire(why string) {
 func (c *Ctx) Done() <-chan struct{} {
 	n := c.polls.Add(1)
 	if c.CancelAt > 0 && n == c.CancelAt {
+		if s := simrt.Active(); s != nil {
+			// where did the cancel land? (reach probe)
+			if pc, _, _, ok := runtime.Caller(1); ok {
+				fn := runtime.FuncForPC(pc).Name()
+				switch {
+				case strings.Contains(fn, "checkCancelationVM"), strings.Contains(fn, "checkCancelationTree"):
+					s.Probe("cancel-landed-in-sleep-builtin")
+				case strings.Contains(fn, "runtime.(*Core).checkCancelation"):
+					s.Probe("cancel-landed-at-vm-cycle-boundary")
+				case strings.Contains(fn, "interpreter.(*Interpreter).checkCancelation"):
+					s.Probe("cancel-landed-in-interpreter-poll")
+				default:
+					s.Probe("cancel-landed-elsewhere")
+				}
+			}
+		}
 		c.Fire(fmt.Sprintf("k=%d", n))
 	}
 	simrt.Yield("poll")
